@@ -41,7 +41,7 @@ Prev(r, n) == IF n = 1 THEN r.init ELSE r.steps[n - 1]
 Side(o, k) == IF k = 1 THEN o.o1 ELSE o.o2
 StepOK16(r, n) ==
   LET a == r.case.hist[n]  o == r.steps[n]  p == Prev(r, n) IN
-  CASE a.op = "clone" -> o.o2 = o.o1 /\ o.o1 = p.o1 /\ o.o2.pan = <<>>
+  CASE a.op = "clone" -> o.err = "none" /\ o.o2 = o.o1 /\ o.o1 = p.o1 /\ o.o2.pan = <<>>       \* (a Clone that panics is recorded in err)
     [] a.op = "swap"  -> TRUE
     [] OTHER          -> Side(o, 3 - a.to) = Side(p, 3 - a.to)
 First16(r) == LET bad == {n \in DOMAIN r.steps : ~StepOK16(r, n)} IN
